@@ -5,7 +5,8 @@ CONSTANTS MaxDirs
 \* The probe package (harness/small/src/asyncfilter.rs renders exactly this):
 \*   package t:p;  interface i { g: func(); h: async func(); resource r { m: func(); } }
 \* A world is a set of items: "if" import f: func(), "ef" export f: func(), "ii" import i,
-\* "ei" export i, "ek" export k: async func().
+\* "ei" export i, "ek" export k: async func(), "ir" a resource declared in the world itself: resource c { f: func(); }
+\* (its method is the world-level imported function "[method]c.f", whose item name equals the freestanding "f").
 IFuncs(imp) == { [name |-> "t:p/i#g", imp |-> imp, decl |-> FALSE],
                  [name |-> "t:p/i#h", imp |-> imp, decl |-> TRUE],
                  [name |-> "t:p/i#[method]r.m", imp |-> imp, decl |-> FALSE] }
@@ -14,11 +15,12 @@ ItemFuncs(it) == CASE it = "if" -> {[name |-> "f", imp |-> TRUE, decl |-> FALSE]
                    [] it = "ii" -> IFuncs(TRUE)
                    [] it = "ei" -> IFuncs(FALSE)
                    [] it = "ek" -> {[name |-> "k", imp |-> FALSE, decl |-> TRUE]}
-WorldItems == { {"if", "ef", "ii", "ei", "ek"}, {"if", "ii"}, {"ef", "ei", "ek"}, {"if", "ef"}, {"ii", "ek"}, {"ei"} }
+                   [] it = "ir" -> {[name |-> "[method]c.f", imp |-> TRUE, decl |-> FALSE]}
+WorldItems == { {"if", "ef", "ii", "ei", "ek", "ir"}, {"if", "ir"}, {"if", "ii"}, {"ef", "ei", "ek"}, {"if", "ef"}, {"ii", "ek"}, {"ei"} }
 FuncsOf(w) == UNION { ItemFuncs(it) : it \in w }
 F5 == [name |-> "t:p/i#h", imp |-> TRUE, decl |-> TRUE]
 
-DirNames == {"f", "t:p/i#g", "t:p/i#h", "t:p/i#[method]r.m", "g", "k"}
+DirNames == {"f", "t:p/i#g", "t:p/i#h", "t:p/i#[method]r.m", "g", "k", "[method]c.f"}
 Directives == [en : BOOLEAN, kind : {"all"}, name : {""}]
               \cup [en : BOOLEAN, kind : {"fn", "import", "export"}, name : DirNames]
 
